@@ -393,6 +393,47 @@ fn run(op: &Value) -> Value {
                 }
             }
         }
+        "json_f64" => {
+            let v: f64 = match op.get("bits32").and_then(|b| b.as_str()) {
+                Some(b) => f32::from_bits(b.parse::<u64>().unwrap() as u32) as f64,
+                None => f64::from_bits(op["bits"].as_str().unwrap().parse().unwrap()),
+            };
+            let want = if v.is_nan() { Some("NaN") } else if v == f64::INFINITY { Some("Infinity") } else if v == f64::NEG_INFINITY { Some("-Infinity") } else { None };
+            if op.get("key").and_then(|k| k.as_bool()).unwrap_or(false) {
+                let mut m = std::collections::BTreeMap::new();
+                m.insert(conjure_object::DoubleKey(v), true);
+                let out = conjure_serde::json::to_string(&m).unwrap();
+                let exp = match want { Some(w) => format!("{{\"{}\":true}}", w), None => format!("{{\"{}\":true}}", v) };
+                let back = conjure_serde::json::client_from_str::<std::collections::BTreeMap<conjure_object::DoubleKey, bool>>(&out);
+                let back_ok = back.map(|b| b.keys().next().map(|k| k.0.to_bits() == v.to_bits() || (k.0.is_nan() && v.is_nan())).unwrap_or(false)).unwrap_or(false);
+                json!({"ok": out == exp && back_ok, "out": out})
+            } else {
+                let out = conjure_serde::json::to_string(&v).unwrap();
+                let exp = match want { Some(w) => format!("\"{}\"", w), None => serde_json::to_string(&v).unwrap() };
+                let back = conjure_serde::json::client_from_str::<f64>(&out).map(|b| b.to_bits() == v.to_bits() || (b.is_nan() && v.is_nan())).unwrap_or(false);
+                let back2 = conjure_serde::json::server_from_str::<f64>(&out).map(|b| b.to_bits() == v.to_bits() || (b.is_nan() && v.is_nan())).unwrap_or(false);
+                json!({"ok": out == exp && back && back2, "out": out})
+            }
+        }
+        "json_parse_f64" => {
+            let text = String::from_utf8(hex(op["text_hex"].as_str().unwrap())).unwrap_or_default();
+            let doc = serde_json::to_string(&text).unwrap();
+            let class = |f: f64| if f.is_nan() { "NaN".to_string() } else if f == f64::INFINITY { "Infinity".to_string() } else if f == f64::NEG_INFINITY { "-Infinity".to_string() } else { "finite".to_string() };
+            let special = text == "NaN" || text == "Infinity" || text == "-Infinity";
+            if op["ty"].as_str() == Some("bool") {
+                let r = conjure_serde::json::client_from_str::<std::collections::BTreeMap<bool, u8>>(&format!("{{{}:1}}", doc));
+                let want = text == "true" || text == "false";
+                json!({"ok": r.is_ok() == want, "got": format!("{:?}", r.ok())})
+            } else if op["key"].as_bool() == Some(true) {
+                let r = conjure_serde::json::client_from_str::<std::collections::BTreeMap<conjure_object::DoubleKey, u8>>(&format!("{{{}:1}}", doc));
+                let got = r.ok().and_then(|m| m.keys().next().map(|k| class(k.0)));
+                json!({"ok": !special || got.as_deref() == Some(text.as_str()), "got": got})
+            } else {
+                let r = conjure_serde::json::client_from_str::<f64>(&doc);
+                let got = r.ok().map(class);
+                json!({"ok": if special { got.as_deref() == Some(text.as_str()) } else { got.is_none() }, "got": got})
+            }
+        }
         _ => json!({"error": format!("unknown op {}", name)}),
     }
 }
